@@ -165,6 +165,8 @@ def gen_prog(rng, prop, hostile_ok=True):
 def base_case(prog, runs, rng, **kw):
     c = {'prog': prog, 'runs': runs, 'ctl': cases.random_ctl(rng, prog),
          'gate_events': rng.choice([0.0, 0.0, 0.3, 0.7]), 'shape': 'single'}
+    if rng.random() < 0.12:
+        c['pool_cap'] = rng.choice([1, 2])      # bounded thread / process pools (jobs wait in the queue)
     c.update(kw)
     return c
 
